@@ -137,6 +137,26 @@ def _eval_global(case):
         if float(Rp) != g and judged:
             f.append(dict(kind='property', key='rc:permutation',
                           detail=dict(got=g, permuted=float(Rp), shape=list(pimg.shape), iz=iz)))
+    # ---- consequences proved in round 2 (C16_otsu_ignore_zeros, C16_rc_ignore_zeros, C16_otsu_two_level), observed on the
+    # real code: ignore_zeros = the zero pixels removed (same histogram, hence the very same double computation), and a
+    # two-level image is split between its two levels
+    nz = np.ascontiguousarray(img.ravel()[img.ravel() != 0])
+    if nz.size and real:
+        try:
+            Tn, Rn = otsu(nz, False), rc(nz, False)
+            if int(Tn) != int(real[1][0]):
+                f.append(dict(kind='property', key='otsu:ignore-zeros-is-zeros-removed',
+                              detail=dict(ignore_zeros=int(real[1][0]), zeros_removed=int(Tn))))
+            if float(Rn) != float(real[1][1]):
+                f.append(dict(kind='property', key='rc:ignore-zeros-is-zeros-removed',
+                              detail=dict(ignore_zeros=float(real[1][1]), zeros_removed=float(Rn))))
+        except Exception as e:
+            f.append(dict(kind='property', key=f'global-threshold:raised:{type(e).__name__}', detail=dict(error=str(e)[:200])))
+    for iz in (0, 1):
+        lv = sorted(set(v for v in data if v or not iz))
+        if len(lv) == 2 and not (lv[0] <= int(real[iz][0]) < lv[1]):
+            f.append(dict(kind='property', key='otsu:two-level-separates',
+                          detail=dict(levels=lv, got=int(real[iz][0]), iz=iz)))
     nlevels = len(set(data))
     return dict(findings=f, nontrivial=nlevels > 1, sig='g' + str(hash((tuple(case['shape']), case['dtype'], tuple(data)))),
                 tags=dict(kind='otsu+rc', near_tie=('+'.join(sorted(near)) or 'none'), dtype=case['dtype'], gen=case.get('gen', 'corpus'),
